@@ -94,6 +94,10 @@ var alphabet = []sym{
 	{":", "colon"}, {":=", "walrus"}, {"=", "eq"}, {".", "dot"}, {"::", "scope"}, {"->", "arrow"}, {"=>", "fat"},
 	{"!", "bang"}, {"?", "q"}, {"&", "amp"}, {"&'", "ampq"}, {"+", "plus"}, {"-", "minus"},
 	{"// c\n", "cmt"}, {"\xff", "xFF"},
+	// (added later: the remaining keywords, operators and literal forms)
+	{"interface", "interface"}, {"map", "map"}, {"is", "is"}, {"none", "none"}, {"break", "break"}, {"continue", "continue"}, {"true", "true"},
+	{"..", "dotdot"}, {"..=", "dotdoteq"}, {"??", "qq"}, {"@", "at"}, {"|", "bar"}, {"*", "star"}, {"/", "slash"}, {"%", "pct"}, {"<", "lt"}, {"==", "eqeq"},
+	{"&&", "andand"}, {"++", "inc"}, {"+=", "pluseq"}, {"**", "pow"}, {"1.5", "flt"}, {"0x1F", "hex"}, {"\"", "dq"}, {"'", "sq"}, {"/*", "bco"}, {"i32", "i32"}, {"str", "strty"},
 }
 
 type frame struct{ name, pre, post string }
